@@ -13,7 +13,7 @@ import (
 func init() {
 	register(&Check{
 		ID:     "C10",
-		Rule:   "moments: every moment from the Xiaohan instant of the base year (1900-01-06 02:03:57 for the default) to 31 December of the clock's year x the 13 slot entries (00:00, 01:00, 03:00, ..., 23:00) x day-boundary convention {1,2} (thorough: all days; quick: 1900, 1984, the last 2 years), plus for every Jie instant t in the whole span the moments {t-1s, t, start of t's slot, end of t's slot}; base years {1, 1600, 1984, 2000} on a stride of the 1984..now span. For each moment the four pillars are read from EightChar under the convention and fed to the reverse lookup; oracle: some returned moment lies on the same day in the same two-hour slot (23:00-00:59 is one slot under convention 1), every returned moment converts forward to exactly those pillars under that convention and is not before the base year, and the list is strictly increasing. non-trivial = moments whose slot contains a Jie instant, rat-slot moments, Lichun-day moments, and non-default base years",
+		Rule:   "moments: every moment from the Xiaohan instant of the base year (1900-01-06 02:03:57 for the default) to 31 December of the clock's year x the 13 slot entries (00:00, 01:00, 03:00, ..., 23:00) x day-boundary convention {1,2} (thorough: all days; quick: 1900, 1984, the last 2 years), plus for every Jie instant t in the whole span the moments {t-1s, t, start of t's slot, end of t's slot}; base years {1, 1600, 1984, 2000} on a stride of the 1984..now span; and for base years B in {900, 1200, 1500, 1582, 1583, 1700, 1900, 1984, 2000, now} the pillars of every moment from 20 December of B-1 to 10 January of B (soundness clauses only: what is returned has the pillars, is not before B, is in order). For each moment the four pillars are read from EightChar under the convention and fed to the reverse lookup; oracle: some returned moment lies on the same day in the same two-hour slot (23:00-00:59 is one slot under convention 1), every returned moment converts forward to exactly those pillars under that convention and is not before the base year, and the list is strictly increasing. non-trivial = moments whose slot contains a Jie instant, rat-slot moments, Lichun-day moments, and non-default base years",
 		Assume: []string{"the wall clock's year is read once at start and once at the end of each worker; a roll-over discards the last year and marks the run inexhaustive", "forward conversion (EightChar) is taken as given here; its correctness is C05's subject"},
 		Shards: func(tier string, seed int64) []Shard {
 			now := time.Now().Local().Year()
@@ -25,6 +25,9 @@ func init() {
 			}
 			out = append(out, splitRanges([][2]int{{1900, now}}, 8, Shard{Kind: "jie", Tier: tier, Seed: seed})...)
 			out = append(out, splitRanges([][2]int{{1984, now}}, 8, Shard{Kind: "base", Tier: tier, Seed: seed})...)
+			for _, by := range []int{900, 1200, 1500, 1582, 1583, 1700, 1900, 1984, 2000, now} {
+				out = append(out, Shard{Kind: "edge", Arg: fmt.Sprint(by), Tier: tier, Seed: seed})
+			}
 			return out
 		},
 		Run:           runC10,
@@ -41,6 +44,10 @@ type c10Moment struct {
 func slotOf(h int) int { return ((h + 1) / 2) % 12 }
 
 // c10Check performs the lookup for one moment; baseYear 0 = default API.
+// c10SoundOnly: the query moment may lie outside the property's domain (before the base year's first Jie); only the
+// clauses about what is returned are judged (right pillars, not earlier than the base year, strictly increasing).
+var c10SoundOnly = false
+
 func c10Check(w *W, d *Day, t hms, sect int, baseYear int, terms []Term) {
 	s := d.At(t.h, t.m, t.s)
 	l := s.GetLunar()
@@ -49,7 +56,7 @@ func c10Check(w *W, d *Day, t hms, sect int, baseYear int, terms []Term) {
 	py, pm, pd, pt := ec.GetYear(), ec.GetMonth(), ec.GetDay(), ec.GetTime()
 	ec.SetSect(2)
 	where := fmt.Sprintf("%s sect=%d base=%d pillars=%s %s %s %s", s.ToYmdHms(), sect, baseYear, py, pm, pd, pt)
-	if solarInst(s) < xiaohanOf(map[bool]int{true: 1900, false: baseYear}[baseYear == 0]) {
+	if !c10SoundOnly && solarInst(s) < xiaohanOf(map[bool]int{true: 1900, false: baseYear}[baseYear == 0]) {
 		return // before the first Jie term of the base year: outside the property's domain
 	}
 	var res *list.List
@@ -74,7 +81,7 @@ func c10Check(w *W, d *Day, t hms, sect int, baseYear int, terms []Term) {
 		by = 1900
 	}
 	now := solarInst(s)
-	if now < xiaohanOf(by) {
+	if !c10SoundOnly && now < xiaohanOf(by) {
 		return // before the first Jie term of the base year: outside the property's domain
 	}
 	slot := slotOf(t.h)
@@ -124,6 +131,10 @@ func c10Check(w *W, d *Day, t hms, sect int, baseYear int, terms []Term) {
 				}
 			}
 		}
+	}
+	if c10SoundOnly {
+		w.R.Nontrivial++
+		return
 	}
 	// class predicate for a miss: the slot contains a Jie instant J with  moment < J <= the slot's representative moment
 	nontriv := slot == 0
@@ -245,6 +256,24 @@ func runC10(w *W) {
 				w.Sample(map[string]interface{}{"jie": tm.Key, "instant": tm.S.ToYmdHms(), "moments": len(ts)})
 			}
 		})
+	case "edge":
+		// the edge of a base year B in every calendar era: lookups for the pillars of the moments from 20 December of
+		// B-1 to 10 January of B with base year B; whatever comes back must have those pillars, must not lie before
+		// B and must be in order (the query moments before B's first Jie are outside the completeness clause)
+		by := atoi(w.Shard.Arg)
+		c10SoundOnly = true
+		for j := r1JDN(by-1, 12, 20); j <= r1JDN(by, 1, 10); j++ {
+			y, m, dd := r1FromJDN(j)
+			d := &Day{J: j, Y: y, M: m, D: dd, Ymd: fmt.Sprintf("%04d-%02d-%02d", y, m, dd)}
+			d.S = calendar.NewSolarFromYmd(y, m, dd)
+			terms := termsOf(d.L())
+			for _, t := range []hms{{0, 0, 0}, {12, 0, 0}, {23, 0, 0}, {23, 59, 59}} {
+				for sect := 1; sect <= 2; sect++ {
+					c10Check(w, d, t, sect, by, terms)
+				}
+			}
+		}
+		c10SoundOnly = false
 	case "base":
 		stride := 29
 		if w.Thorough() {
